@@ -351,6 +351,11 @@ def fiber_cases(draw):
 
     f = [[c, child()] for c in cf]
     g = [[c, child()] for c in cg]
+    if d == 1 and draw(st.integers(0, 3)) == 0:
+        # sums that cancel exactly: g holds the negative of f wherever both store a value (the sum leaves no
+        # element there), next to coordinates only one of them has
+        fv = dict((c, v) for c, v in f)
+        g = [[c, -fv[c] if c in fv and fv[c] != 0 and draw(st.integers(0, 2)) else v] for c, v in g]
     s = draw(st.sampled_from([2, 3, -1, -2, 5, 1, 0, 0.5, -1.5, 0.25, 4.0]))
     # (the left operand may carry a narrowed active range, as a partition of a split does: the statement speaks
     # of the whole shape / the stored elements, not of the active range)
